@@ -33,7 +33,8 @@ PickBad == st.phase = 0 /\ \E c \in Curves : \E r \in BadR(c) \cup {<<5>>} : \E 
                 (r = <<5>> => neg) /\ st' = [phase |-> 1, what |-> "ecdsa-render", curve |-> c, r |-> r, s |-> <<9>>, rneg |-> neg, alg |-> (CASE c = "p256" -> 0 - 7 [] c = "p384" -> 0 - 35 [] c = "p521" -> 0 - 36)]
 PickNative == st.phase = 0 /\ \E c \in Curves : \E p \in {"native", "opaque"} : \E i \in 1..NativeN :
                 st' = [phase |-> 1, what |-> "ecdsa-native", curve |-> c, path |-> p, i |-> i]
-Renderings == {"exact", "der", "stripr", "strips", "stripboth", "padr", "pads", "padboth", "padboth2", "swap", "empty", "trunc1", "trunc2", "drop1", "ext1", "ext2", "lead1", "lead2", "halfr"}
+Renderings == {"exact", "der", "stripr", "strips", "stripboth", "padr", "pads", "padboth", "padboth2", "swap", "empty", "trunc1", "trunc2", "drop1", "ext1", "ext2", "lead1", "lead2", "halfr",
+               "ext255", "ext256", "ext512", "ext65536", "lead256", "twice"}      \* lengths that differ from 2n by multiples of 2^8 / 2^16; the exact form twice
 PickAccept == st.phase = 0 /\ \E c \in Curves : \E cl \in {"normal", "shortr", "shorts"} : \E rd \in Renderings : \E sd \in Seeds :
                 st' = [phase |-> 1, what |-> "ecdsa-accept", curve |-> c, class |-> cl, rendering |-> rd, seed |-> sd]
 Next == PickRender \/ PickBad \/ PickNative \/ PickAccept
